@@ -56,7 +56,7 @@ func (x *Exec) guarantee(st *State, old, nv *Term, guar *Term, what string) {
 		return
 	}
 	x.nAtomic++
-	x.side = append(x.side, SideOblig{Name: fmt.Sprintf("guarantee:%s#%d", what, x.nAtomic), PC: x.pcOf(st), Goal: g})
+	x.side = append(x.side, SideOblig{Name: fmt.Sprintf("guarantee:%s#%d", what, x.nAtomic), PC: x.pcOf(st), Body: !st.specPhase, Goal: g})
 }
 
 func (x *Exec) concTrusted(st *State, fn *ssa.Function, name string, args []*Term) ([]Outcome, bool) {
